@@ -1,6 +1,6 @@
 (** Classification of C12 fault-injection runs (harness/props/c12.go). *)
 From Coq Require Import List Bool Arith Strings.Byte.
-From YV Require Import Base.Verdict Tree.Trace.
+From YV Require Import Base.Verdict Tree.Trace Tree.TraceProofs.
 Import ListNotations.
 
 Inductive case :=
@@ -10,8 +10,9 @@ Inductive case :=
 Definition classify (c : case) : verdict :=
   match c with
   | CFault root t k observed errored wrapped =>
-      classify_gen (events_eqb (run_fault t k) observed) (c12_ok root observed errored wrapped) None
+      (* wf_tree ties the parsed frame tree to the hypothesis of C12_all_faults *)
+      classify_gen (wf_tree root t && events_eqb (run_fault t k) observed) (c12_ok root observed errored wrapped) None
   | CClean root t observed errored =>
-      classify_gen (match t with Some t' => events_eqb (run_clean t') observed | None => false end)
+      classify_gen (match t with Some t' => wf_tree root t' && events_eqb (run_clean t') observed | None => false end)
                    (c12_ok root observed errored false) None
   end.
